@@ -23,7 +23,8 @@ META = {
         " Also: the header decision derives from `mode` and an existence test in both writers, both scrubbers hand a plain cell over unchanged, wrappers delegate to the method of their own name, 'ilots' cannot raise on lot divisions, joined elements are visibly str."
         ' Round 7: the collectors behind the writers keep every element (no identity / membership filter on insert); result caches on the description are keyed by value.'
         ' Round 8: list cells are written entry by entry (no dict.fromkeys de-duplication); no first-element fast path in _from_multiple.'
-        ' Round 9: tracts_to_csv opens the file on every call; attribute names are not de-duplicated.'),
+        ' Round 9: tracts_to_csv opens the file on every call; attribute names are not de-duplicated.'
+        ' Round 10: the header decision of both writers is followed for the four combinations of (file exists, mode): header in all but append-to-existing.'),
     'families': ['TBL', 'EXC', 'SIB', 'ESCAPE', 'FORWARD', 'DEADPARAM', 'SIB-DEFAULTS'],
 }
 
@@ -290,6 +291,8 @@ def _writers(ctx):
                  "the header decision looks at `mode` but not at whether the file exists: appending to a new file "
                  "produces a csv without header row"),
                 key=f"SIB|{label}|header-decision|{'nomode' if has_ex else 'noexists'}", where=common.loc(f_, hcalls[0]))
+    for f_, label in ((csvf, 'tracts_to_csv'), (ctx.repo.func('TractWriter.__init__'), 'TractWriter')):
+        ctx.attempt(_header_truth_table, f_, label)
     cfg_c, _ = flow.analyse(csvf.node)
     ex_c = [enclosing_stmt(n) for n in walk_local(csvf.node) if isinstance(n, ast.Call) and norm(n.func) == 'fp.exists']
     withs = [n for n in csvf.node.body if isinstance(n, ast.With)]
@@ -406,3 +409,65 @@ def _csv_always_written(ctx):
               detail_bad=f"the `return` at line {early[0].lineno if early else 0} comes before the file is opened: for that input (an empty list) "
                          f"mode 'w' neither creates nor truncates the file - a new path gets no header, an existing file keeps the rows "
                          f"of an earlier export", key="SIB|tracts_to_csv|early-return", where=common.loc(fi, early[0]) if early else None)
+
+
+def _header_truth_table(ctx, f_, label):
+    """The header row is written unless the file already exists AND is opened
+    for appending: follow the writer for the four combinations of (file
+    exists, mode 'a' / 'w') - the existence test is replaced by a constant,
+    `mode` is bound, everything that does not feed the decision is skipped -
+    and compare with that table."""
+    import copy
+    from .. import ccp
+    hcalls = [c for c in walk_local(f_.node) if isinstance(c, ast.Call) and 'header' in norm(c).lower()
+              and (dotted(c.func) or '').split('.')[-1] in ('writerow', 'write_headers')]
+    if len(hcalls) != 1 or not guards(hcalls[0]):
+        raise AnalysisError(f"{label}: a single guarded header-writing call was not found")
+    fn = ast.parse(ast.unparse(f_.node)).body[0]          # a private copy to rewrite (no links into the module tree)
+    fn._parent = None
+    for x in ast.walk(fn):
+        for ch in ast.iter_child_nodes(x):
+            ch._parent = x
+    hc2 = [c for c in ast.walk(fn) if isinstance(c, ast.Call) and norm(c) == norm(hcalls[0])][0]
+
+    class _R(ast.NodeTransformer):
+        def visit_Call(self, n):
+            if isinstance(n.func, ast.Attribute) and n.func.attr in ('exists', 'is_file') and not n.args:
+                return ast.copy_location(ast.Name(id='__exists__', ctx=ast.Load()), n)
+            if (dotted(n.func) or '') in ('os.path.exists', 'os.path.isfile', 'path.exists', 'path.isfile'):
+                return ast.copy_location(ast.Name(id='__exists__', ctx=ast.Load()), n)
+            return self.generic_visit(n)
+
+        def visit_Attribute(self, n):
+            if norm(n) == 'self.mode':
+                return ast.copy_location(ast.Name(id='mode', ctx=ast.Load()), n)
+            return self.generic_visit(n)
+    gs = [(ast.fix_missing_locations(_R().visit(ast.parse(ast.unparse(t), mode='eval').body)), pol) for t, pol in guards(hc2)]
+    st2 = hc2
+    while not isinstance(st2, ast.stmt):
+        st2 = st2._parent
+    fn2 = _R().visit(fn)
+    ast.fix_missing_locations(fn2)
+    st2b = [x for x in ast.walk(fn2) if isinstance(x, ast.stmt) and getattr(x, 'lineno', None) == st2.lineno
+            and type(x) is type(st2)]
+    targets = {x.id for t, _ in gs for x in ast.walk(t) if isinstance(x, ast.Name)}
+    table = {}
+    for exists in (True, False):
+        for mode in ('a', 'w'):
+            env = {'__exists__': exists, 'mode': mode, 'True': True, 'False': False, 'None': None}
+            try:
+                env2 = ccp.run_slice(fn2, targets - {'__exists__', 'mode'}, env, stop_at=st2b[0] if st2b else None)
+                table[(exists, mode)] = all(ccp.truth(ccp.ev(t, env2)) == pol for t, pol in gs)
+            except ccp.Unsupported as e:
+                raise AnalysisError(f"{label}: header decision not followed ({e})")
+    want = {(e, m): not (e and m == 'a') for e in (True, False) for m in ('a', 'w')}
+    wrong = sorted(k for k in want if table[k] != want[k])
+
+    def say(k):
+        e, m = k
+        what = f"{'an existing' if e else 'a new'} file opened in mode '{m}'"
+        return f"{what} gets {'a' if table[k] else 'NO'} header row"
+    ctx.check(not wrong, 'SIB', f"{label}: header row for every combination of (file exists, mode) except append-to-existing",
+              'followed for the four combinations',
+              f"{'; '.join(say(k) for k in wrong)} - the csv {'has a header line in the middle of its rows' if any(table[k] for k in wrong) else 'comes out without its header'}",
+              key=f"SIB|{label}|header-table|{','.join(f'{int(e)}{m}' for e, m in wrong)}", where=common.loc(f_, hcalls[0]))
